@@ -15,7 +15,7 @@
 import ast
 import copy
 import inspect
-from functools import partial, reduce
+from functools import reduce
 from typing import Any, Callable, Dict, List, Tuple, Union, get_args  # noqa: F401
 
 from sympy import Symbol
@@ -112,8 +112,14 @@ class UnboundQlassf:
                 exec(c, globals(), ns)  # explicit namespace works in >=3.13 and <3.13
                 original_f = ns.get(fun_ast.body[0].name)
             except Exception:
-                # fallback: partial on original function
-                original_f = partial(self.original_f, **kwargs)
+                # fallback: the original function with the parameters set; the
+                # remaining arguments are given positionally, whatever their position
+                names = [arg.arg for arg in fun_ast.body[0].args.args]
+                unbound_f = self.original_f
+
+                def original_f(*args):
+                    return unbound_f(**kwargs, **dict(zip(names, args)))
+
         else:
 
             def orig(*args, **kwargs):
